@@ -1,13 +1,23 @@
 import Spine.UseCaseConc
+import Spine.UseCaseLock
 /-!
 # C20 — the use-case registry reflects exactly what the application declared
 
-Property theorems only. Model: `Spine.UC` (`Spine/UseCase.lean`: the node-management use-case data as a list of
-information elements, `add` / `has` / `setAvail` / `remove` / `removeAll` transcribed from
-`model/nodemanagement_additions.go`, `usecaseinformation_additions.go` with the wildcard rules of
-`useCaseInformationIndex`; `Spine/UseCaseConc.lean`: the four `EntityLocal` operations as events `copy`, `store`
-(code as written: DataCopy … SetData without a lock of their own) and `atomic` (repaired: one mutex around the
-read-modify-write). Lemmas: `Spine/UseCaseThm.lean`.
+Property theorems only. Models (all in namespace `Spine.UC`):
+* `Spine/UseCase.lean` — the node-management use-case data as a list of information elements; `add` / `has` /
+  `setAvail` / `remove` / `removeAll` transcribed from `model/nodemanagement_additions.go`,
+  `usecaseinformation_additions.go` with the wildcard rules of `useCaseInformationIndex`; the read path
+  (`handleUseCaseMsg`, `readReply` = wire encoding of the stored data, `decode`, `peerReads`).
+* `Spine/UseCaseLock.lean` — the member WITH THE LOCK: each of the four `EntityLocal` operations is
+  `useCaseMux.Lock(); DataCopy; modify; SetData; (deferred) Unlock`, events `acquire`, `copy`, `store`, `release`.
+  **This is the member the current tree is** (since `fix:` 45f2bf6; regenerated fact `Spine.Props.C20Gen`).
+* `Spine/UseCaseConc.lean` — the member WITHOUT a lock, events `copy`, `store`: "the code as written" below always
+  means the pinned commit a1767d0, where the cycles were unlocked; plus `atomic` events (a cycle nothing overlaps).
+  Kept because the harness probes the tree and must still tell the truth if the lock is removed again.
+* `Spine/UseCaseHeap.lean` — executable aliasing-exact variant of the unlocked member (DataCopy copies only the slice
+  header); with the lock its overlapping-cycle behaviour is unreachable through the public API (`c20_concurrent_locked`:
+  every schedule is sequential), it only serves the correspondence run on an unlocked tree.
+Lemmas: `Spine/UseCaseThm.lean`.
 
 SPEC: a plain map `(entity, actor, name) ↦ Support` (`UC.Spec`; a `Support` carries name, version, availability,
 scenarios and document sub-revision), changed by `UC.specStep` — add overwrites the key, remove deletes the key,
@@ -17,9 +27,11 @@ Precondition made explicit (`Op.ok`): actor and use-case name are non-empty. The
 lookup of the real code and the API does not reject it; such calls are outside the statement (the harness records
 them as observations and compares them with the model only).
 
-Status: every sequential clause PROVED for all histories; isolation PROVED; read = registry PROVED (the reply is the
-stored data); concurrent clause REFUTED for the code as written (kernel-checked witness, known finding
-`usecase-lost-update`), PROVED for non-overlapping schedules (`_partial`) and for the repaired member (all schedules).
+Status: every clause PROVED for the current tree's member — sequential clauses for all histories, isolation, read =
+registry through the modelled read path, and the concurrent clause as ONE theorem over all schedules of the locked
+cycles (`c20_concurrent_locked`). For the pinned commit's unlocked member the concurrent clause is REFUTED by a
+kernel-checked witness (`c20_concurrent_refuted`; finding `usecase-lost-update`, recorded as fixed) and PROVED for
+non-overlapping schedules (`c20_concurrent_partial`).
 -/
 namespace Spine.Props.C20
 open Spine Spine.UC
@@ -38,13 +50,14 @@ theorem c20_refines (ops : List Op) (hok : ∀ op ∈ ops, op.ok) :
 def exOps : List Op :=
   [.add [1] 1 ⟨1, 0, true, [1], 0⟩, .add [2] 1 ⟨1, 0, true, [], 0⟩, .add [1] 1 ⟨1, 2, false, [2, 3], 1⟩,
    .add [1] 2 ⟨3, 0, true, [], 0⟩, .setAvail [1] 1 1 true, .remove [1] 2 3, .removeAll [2], .remove [1] 1 9]
-example : (∀ op ∈ exOps, op.ok) ∧
-    lookup (exOps.foldl apply []) [1] 1 1 = some ⟨1, 2, true, [2, 3], 1⟩ ∧
-    lookup (exOps.foldl apply []) [1] 2 3 = none ∧ lookup (exOps.foldl apply []) [2] 1 1 = none := by
-  refine ⟨?_, by decide, by decide, by decide⟩
+
+theorem exOps_ok : ∀ op ∈ exOps, op.ok := by
   intro op hop
   simp only [exOps, List.mem_cons, List.not_mem_nil, or_false] at hop
   rcases hop with rfl | rfl | rfl | rfl | rfl | rfl | rfl | rfl <;> simp [Op.ok]
+
+example : lookup (exOps.foldl apply []) [1] 1 1 = some ⟨1, 2, true, [2, 3], 1⟩ ∧
+    lookup (exOps.foldl apply []) [1] 2 3 = none ∧ lookup (exOps.foldl apply []) [2] 1 1 = none := by decide
 
 /-- Clause 1, "is reported as supported exactly if it was added and not removed since":
     `HasUseCaseSupport` is the domain test of that map. -/
@@ -70,52 +83,99 @@ theorem c20_isolation (r : Reg) (hi : Inv r) (op : Op) (hok : op.ok) (e' : List 
 
 example : Inv (exOps.foldl apply []) ∧ lookup (exOps.foldl apply []) [1] 1 1 ≠ none ∧
     lookup (apply (exOps.foldl apply []) (.removeAll [2])) [1] 1 1 = lookup (exOps.foldl apply []) [1] 1 1 :=
-  ⟨(UC.c20_refines exOps (by
-      intro op hop
-      simp only [exOps, List.mem_cons, List.not_mem_nil, or_false] at hop
-      rcases hop with rfl | rfl | rfl | rfl | rfl | rfl | rfl | rfl <;> simp [Op.ok])).1, by decide, by decide⟩
+  ⟨(UC.c20_refines exOps exOps_ok).1, by decide, by decide⟩
 
-/-- Clause 3 (sequential part): the use-case data a peer reads from node management equals that registry. In the
-    model the reply is the stored data (`readReply`), so the statement is the refinement theorem read through the
-    reply; that the real reply datagram equals the stored data is what the harness compares on every read. -/
+/-- Clause 3 (sequential part): the use-case data a peer reads from node management equals that registry.
+    The read path is modelled: a `read` carrying use-case data is routed by node management to
+    `processReadUseCaseData`, which replies with the wire encoding of the stored function data; the peer decodes the
+    payload (`peerReads`). The decoded payload answers exactly like the specification map; and node management sends
+    use-case data back for no classifier other than `read`. (That the real JSON datagram decodes to the stored data
+    is compared by the harness on every read; `encoding/json` itself is assumption A-json.) -/
 theorem c20_read_equals_registry (ops : List Op) (hok : ∀ op ∈ ops, op.ok) :
-    lookup (readReply (ops.foldl apply [])) = ops.foldl specStep (fun _ _ _ => none) :=
-  (UC.c20_refines ops hok).2
+    (peerReads (ops.foldl apply [])).map lookup = some (ops.foldl specStep (fun _ _ _ => none)) ∧
+    ∀ c, (handleUseCaseMsg (ops.foldl apply []) c).isSome ↔ c = .read := by
+  refine ⟨by rw [peerReads_eq, Option.map_some, (UC.c20_refines ops hok).2], ?_⟩
+  intro c; cases c <;> simp [handleUseCaseMsg]
 
-example : lookup (readReply (exOps.foldl apply [])) [1] 1 1 = some ⟨1, 2, true, [2, 3], 1⟩ := by decide
+/-- the encoding is not trivial: the payload of the example registry, and it decodes back -/
+example : readReply (exOps.foldl apply []) = [1, 1, 1, 1, 1, 1, 2, 1, 1, 2, 2, 3] ∧
+    decode [1, 1, 1, 1, 1, 1, 2, 1, 1, 2, 2, 3] = some (exOps.foldl apply []) ∧
+    decode [1, 1, 1, 1, 1, 1, 2, 1, 1, 2, 2] = none := by decide
 
-/-- Clause 3 (concurrent part), REPAIRED member (one mutex around each read-modify-write, events `atomic`):
-    under every schedule the registry — and therefore what a peer reads — is the specification map folded over the
-    order in which the serialised operations took effect. -/
+/-- Clause 3, THE CONCURRENT CLAUSE FOR THE CURRENT TREE (cycles under `useCaseMux`), as one statement: for EVERY
+    interleaving of the `acquire` / `copy` / `store` / `release` events of any number of operations issued from any
+    goroutines on any entities (events of an operation that is not at that program point are no-ops, so every event
+    list is a schedule), there is a sequentialisation — the operations whose stores took effect, in the order of the
+    lock holds in which they took effect (`doneBy` carries the serial number of the lock hold, non-decreasing) —
+    such that the registry is the sequential run of it, what a peer reads through node management at that moment
+    decodes to a registry answering exactly like the SPEC map of that sequentialisation, and `HasUseCaseSupport`
+    is its domain test. Every prefix of a schedule is a schedule, so this holds at every moment of the schedule. -/
+theorem c20_concurrent_locked (evs : List LEv) (hok : ∀ k o, LEv.store k o ∈ evs → o.ok) :
+    let s := lrun evs
+    let σ := s.seq.foldl specStep (fun _ _ _ => none)
+    (s.doneBy.map (·.1)).Pairwise (· ≤ ·) ∧
+    (∀ o ∈ s.seq, ∃ k, LEv.store k o ∈ evs) ∧
+    s.reg = s.seq.foldl apply [] ∧
+    (peerReads s.reg).map lookup = some σ ∧
+    ∀ e a n, a ≠ 0 → n ≠ 0 → has s.reg e a n = (σ e a n).isSome := by
+  intro s σ
+  have hseq : ∀ o ∈ s.seq, o.ok := fun o ho => by
+    obtain ⟨k, hk⟩ := seq_sub evs o ho
+    exact hok k o hk
+  obtain ⟨hreg, hord⟩ := locked_is_sequential evs
+  refine ⟨hord, seq_sub evs, hreg, ?_, ?_⟩
+  · rw [peerReads_eq, Option.map_some, hreg, (UC.c20_refines s.seq hseq).2]
+  · intro e a n ha hn
+    rw [hreg]
+    exact UC.c20_has s.seq hseq e a n ha hn
+
+/-- non-vacuity: the lost-update schedule of the unlocked code, attempted under the lock — the second operation cannot
+    copy while the first holds the lock, both additions take effect, in lock order -/
+example :
+    (lrun [.acquire 1, .copy 1, .acquire 2, .copy 2, .store 1 (.add [1] 1 ⟨1, 0, true, [], 0⟩),
+           .store 2 (.add [2] 1 ⟨1, 0, true, [], 0⟩), .release 1, .acquire 2, .copy 2,
+           .store 2 (.add [2] 1 ⟨1, 0, true, [], 0⟩), .release 2]).doneBy
+      = [(1, .add [1] 1 ⟨1, 0, true, [], 0⟩), (2, .add [2] 1 ⟨1, 0, true, [], 0⟩)] := by decide
+
+/-- … and a complete cycle that nothing overlaps has exactly the effect of the operation (the events are not vacuous) -/
+theorem c20_locked_cycle_effect (s : LSt) (h : LInv s) (hfree : s.holder = none) (k : Nat) (o : Op) :
+    ([LEv.acquire k, .copy k, .store k o, .release k].foldl lstep s).reg = apply s.reg o ∧
+    ([LEv.acquire k, .copy k, .store k o, .release k].foldl lstep s).holder = none :=
+  cycle_effect s h hfree k o
+
+/-- The same clause for cycles that are single events (`atomic`; used by the harness on a serialised tree, where a
+    cycle cannot be split): the registry — and what a peer reads — is the specification map folded over the order in
+    which the operations took effect. -/
 theorem c20_concurrent (evs : List CEv) (ops : List Op) (h : atomicOps evs = some ops) (hok : ∀ op ∈ ops, op.ok) :
-    lookup (readReply (crun evs).reg) = ops.foldl specStep (fun _ _ _ => none) :=
-  UC.c20_concurrent evs ops h hok
+    (peerReads (crun evs).reg).map lookup = some (ops.foldl specStep (fun _ _ _ => none)) := by
+  rw [peerReads_eq, Option.map_some, UC.c20_concurrent evs ops h hok]
 
 example : atomicOps [.atomic (.add [1] 1 ⟨1, 0, true, [], 0⟩), .atomic (.add [2] 1 ⟨1, 0, true, [], 0⟩)] = some lostOps ∧
     lookup (crun [.atomic (.add [1] 1 ⟨1, 0, true, [], 0⟩), .atomic (.add [2] 1 ⟨1, 0, true, [], 0⟩)]).reg [1] 1 1
       = some ⟨1, 0, true, [], 0⟩ := ⟨rfl, by decide⟩
 
-/-- Clause 3 (concurrent part), code AS WRITTEN, PARTIAL: for every schedule in which no two read-modify-write
-    cycles overlap (each copy directly followed by its store) the registry is the specification map folded over the
+/-- UNLOCKED member (the pinned commit), PARTIAL: for every schedule in which no two read-modify-write cycles
+    overlap (each copy directly followed by its store) the registry is the specification map folded over the
     operations. The excluded region is exactly "some cycle starts between another cycle's copy and store". -/
 theorem c20_concurrent_partial (evs : List CEv) (ops : List Op) (h : calmOps none evs = some ops)
     (hok : ∀ op ∈ ops, op.ok) :
-    lookup (readReply (crun evs).reg) = ops.foldl specStep (fun _ _ _ => none) :=
-  UC.c20_concurrent_partial evs ops h hok
+    (peerReads (crun evs).reg).map lookup = some (ops.foldl specStep (fun _ _ _ => none)) := by
+  rw [peerReads_eq, Option.map_some, UC.c20_concurrent_partial evs ops h hok]
 
 example : calmOps none [.copy 1, .store 1 (.add [1] 1 ⟨1, 0, true, [], 0⟩), .copy 2, .store 2 (.add [2] 1 ⟨1, 0, true, [], 0⟩)]
     = some lostOps := rfl
 
-/-- Clause 3 (concurrent part), code AS WRITTEN, REFUTED (known finding `usecase-lost-update`): the full-strength
-    statement — for every well-formed schedule of copy/store events the registry is the specification map folded
-    over the operations in store order — fails on copy₁ copy₂ store₁ store₂ with two additions on the different
-    entities [1] and [2]: entity [1]'s use case is lost. -/
+/-- UNLOCKED member (the pinned commit), REFUTED (finding `usecase-lost-update`, repaired by 45f2bf6): the
+    full-strength statement — for every well-formed schedule of copy/store events the registry is the specification
+    map folded over the operations in store order — fails on copy₁ copy₂ store₁ store₂ with two additions on the
+    different entities [1] and [2]: entity [1]'s use case is lost. -/
 theorem c20_concurrent_refuted :
     ¬ (∀ (evs : List CEv) (ops : List Op), storeOrder [] evs = some ops → (∀ op ∈ ops, op.ok) →
         lookup (crun evs).reg = ops.foldl specStep (fun _ _ _ => none)) :=
   UC.c20_concurrent_refuted
 
-/-- the witness itself, as a concrete evaluation (replayed on the real code through the yield hook on every run) -/
+/-- the witness itself, as a concrete evaluation (the harness replays it through the yield hook on every run and
+    reports it if the tree under test loses the update) -/
 theorem c20_lost_update_witness :
     lookup (crun [.copy 1, .copy 2, .store 1 (.add [1] 1 ⟨1, 0, true, [], 0⟩),
                   .store 2 (.add [2] 1 ⟨1, 0, true, [], 0⟩)]).reg [1] 1 1 = none :=
